@@ -439,3 +439,46 @@ func VerifHandleCreateCollection() {
 		vassert("well-formed-create-reaches-the-cluster-layer", c.calls == 1)
 	}
 }
+
+// C16 / C18: GET /collections and DELETE /collections/{id} for varied headers: the listing is made
+// for exactly the caller's user id, the deletion addresses exactly the caller's collection of that
+// name, and the answers map the cluster outcome (200 / 202 when not every shard was deleted / 500).
+func VerifHandleListAndDeleteCollection() {
+	c := verifNewCluster()
+	sdbh := &SemaDBHandlers{}
+	if nondetBool() {
+		w, user, _ := verifServeH(sdbh.HandleDeleteCollection, nil, 1<<30, true)
+		vcover("reached")
+		if c.calls > 0 {
+			vcover("cluster-reached")
+			vassert("delete-addresses-the-callers-collection", len(c.users) == 1 && c.users[0] == user)
+			if c.fail == 0 {
+				vassert("delete-is-answered-200-or-202", w.status == 200 || w.status == 202)
+			} else {
+				vassert("failed-delete-is-answered-500", w.status == 500)
+			}
+		}
+		return
+	}
+	plans := map[string]models.UserPlan{"basic": {Name: "basic", MaxCollections: 1, MaxCollectionPointCount: 100, MaxPointSize: 100}}
+	user := []string{"alice", "bob", "", "."}[nondetIntRange(0, 3)]
+	r := &http.Request{Method: "GET", Header: http.Header{}}
+	if user != "" {
+		r.Header["X-User-Id"] = []string{user}
+	}
+	r.Header["X-Plan-Id"] = []string{"basic"}
+	w := &verifWriter{hdr: http.Header{}}
+	middleware.AppHeaderMiddleware(plans, http.HandlerFunc(sdbh.HandleListCollections)).ServeHTTP(w, r)
+	vcover("reached")
+	vassert("exactly-one-status-written", w.headerCalls == 1)
+	if user == "" || user == "." {
+		vassert("listing-without-a-valid-user-id-is-refused-before-the-cluster-layer", w.status >= 400 && w.status < 500 && c.calls == 0)
+		return
+	}
+	vassert("listing-is-made-once-for-exactly-the-callers-user-id", c.calls == 1 && len(c.users) == 1 && c.users[0] == user)
+	if c.fail == 0 {
+		vassert("listing-is-answered-200", w.status == 200)
+	} else {
+		vassert("failed-listing-is-answered-500", w.status == 500)
+	}
+}
